@@ -9,6 +9,40 @@ use std::time::Duration;
 
 static RECORD_DROPS: AtomicBool = AtomicBool::new(true);
 
+/// Values without drop glue (key k2): their destructor cannot be observed, the release of the memory they
+/// are stored in can. The allocator counts live blocks of exactly their size.
+#[derive(Debug, Clone, Copy)]
+struct Plain {
+    id: u64,
+    tag: u64,
+    _pad: [u8; 1237],
+}
+const PLAIN_SIZE: usize = std::mem::size_of::<Plain>();
+static PLAIN_LIVE: std::sync::atomic::AtomicI64 = std::sync::atomic::AtomicI64::new(0);
+struct Counting;
+unsafe impl std::alloc::GlobalAlloc for Counting {
+    unsafe fn alloc(&self, l: std::alloc::Layout) -> *mut u8 {
+        if l.size() == PLAIN_SIZE {
+            PLAIN_LIVE.fetch_add(1, Ordering::SeqCst);
+        }
+        std::alloc::System.alloc(l)
+    }
+    unsafe fn dealloc(&self, p: *mut u8, l: std::alloc::Layout) {
+        if l.size() == PLAIN_SIZE {
+            PLAIN_LIVE.fetch_sub(1, Ordering::SeqCst);
+        }
+        std::alloc::System.dealloc(p, l);
+    }
+}
+#[global_allocator]
+static ALLOC: Counting = Counting;
+fn pv(t: Option<&Plain>) -> Value {
+    match t {
+        Some(t) => json!({"id": t.id, "tag": t.tag}),
+        None => json!({"id": 0, "tag": 0}),
+    }
+}
+
 #[derive(Debug)]
 struct Tok {
     id: u64,
@@ -48,6 +82,7 @@ fn run_scenario(sc: &Value) {
         })
         .collect();
     let mut graveyard: Vec<Tok> = vec![];
+    let plain0 = PLAIN_LIVE.load(Ordering::SeqCst);
     for op in sc["hist"].as_array().unwrap() {
         progress();
         let c = op["c"].as_u64().unwrap() as usize;
@@ -55,10 +90,38 @@ fn run_scenario(sc: &Value) {
         if kind == "drop_co" {
             rec(json!({"ev": "drop_co", "co": c}));
             drop(cos[c - 1].take());
+            rec(json!({"ev": "mem", "live": PLAIN_LIVE.load(Ordering::SeqCst) - plain0}));
             continue;
         }
         let Some(co) = cos[c - 1].as_ref() else { continue };
         let k = key(op["k"].as_str().unwrap());
+        if k == "k2" {
+            // the key that holds values without drop glue
+            match kind {
+                "put" => {
+                    let id = op["id"].as_u64().unwrap();
+                    let old: Option<Plain> = co.put(k, Plain { id, tag: 0, _pad: [0; 1237] });
+                    rec(json!({"ev": "put", "co": c, "key": k, "id": id, "ret": pv(old.as_ref()), "plain": true}));
+                }
+                "get" => {
+                    let v: Option<&Plain> = co.get(k);
+                    rec(json!({"ev": "get", "co": c, "key": k, "ret": pv(v)}));
+                }
+                "get_mut" => {
+                    let v: Option<&mut Plain> = co.get_mut(k);
+                    rec(json!({"ev": "get_mut", "co": c, "key": k, "ret": pv(v.as_deref())}));
+                    if let Some(t) = v {
+                        t.tag += 1;
+                    }
+                }
+                "remove" => {
+                    let old: Option<Plain> = co.remove(k);
+                    rec(json!({"ev": "remove", "co": c, "key": k, "ret": pv(old.as_ref()), "plain": true}));
+                }
+                other => panic!("unknown op {other}"),
+            }
+            continue;
+        }
         match kind {
             "put" => {
                 let id = op["id"].as_u64().unwrap();
@@ -90,6 +153,7 @@ fn run_scenario(sc: &Value) {
         if slot.is_some() {
             rec(json!({"ev": "drop_co", "co": i + 1}));
             drop(slot.take());
+            rec(json!({"ev": "mem", "live": PLAIN_LIVE.load(Ordering::SeqCst) - plain0}));
         }
     }
     rec(json!({"ev": "lend", "scenario": sc["id"]}));
